@@ -55,6 +55,7 @@ fn small_pair(rng: &mut Rng) -> PairSpec {
         dup_pct: *rng.pick(&[0u64, 5, 20]),
         groups,
         mix_pct: *rng.pick(&[0u64, 0, 30]),
+        overlap_prev: false,
     }
 }
 
@@ -88,8 +89,12 @@ fn scenarios(tier: Tier, seed: u64) -> Vec<CaseSpec> {
         });
     };
     // scale of the heavy cases: multiples of the 64 KiB limit
-    let ks: &[usize] = if thorough { &[1, 2, 3, 4, 6, 8, 1, 2, 3, 4, 5, 6, 1, 2, 2, 3] } else { &[1, 1, 2, 2, 3, 4] };
-    for &k in ks {
+    let ks: Vec<usize> = if thorough {
+        (0..96).map(|r| 1 + r % 8).collect()
+    } else {
+        vec![1, 1, 2, 2, 3, 4]
+    };
+    for &k in &ks {
         // ---- PairPos format 1 needs splitting
         for (shape, n_tp, dev_mode, dev_pct) in [(1u8, 1usize, 0u8, 0u64), (0, 1, 0, 0), (2, 3, 0, 0), (1, 2, 2, 25), (0, 1, 4, 15), (2, 1, 1, 50)] {
             let n_first = (150 + rng.usize(250)) * k;
@@ -124,6 +129,7 @@ fn scenarios(tier: Tier, seed: u64) -> Vec<CaseSpec> {
                 dup_pct: 2,
                 groups,
                 mix_pct: 40,
+                overlap_prev: false,
             };
             push(&mut v, "pairpos2-big", vec![LookupSpec::Pair(vec![s])], &mut rng);
         }
@@ -140,6 +146,30 @@ fn scenarios(tier: Tier, seed: u64) -> Vec<CaseSpec> {
                 mark_shape: rng.usize(3) as u8,
             };
             push(&mut v, "markbase-big", vec![LookupSpec::Mark(vec![s])], &mut rng);
+        }
+        // ---- shadowing: class subtables with overlapping coverage, the first
+        // of which must be split; subtable order decides the result
+        for variant in 0..3 {
+            let (a, b) = (90 + rng.usize(60) * k.min(3), 70 + rng.usize(80));
+            let g0 = group(a, b, 2 + rng.usize(2), 2, 80, &mut rng);
+            let (a, b) = (20 + rng.usize(60), 20 + rng.usize(60));
+            let g1 = group(a, b, 3 + rng.usize(6), 3, 70, &mut rng);
+            let mk = |groups: Vec<GroupSpec>, overlap: bool, n_first: usize| PairSpec {
+                n_first,
+                per_first: 20,
+                first_shape: 1,
+                n_tp: 2,
+                dev_mode: if variant == 2 { 5 } else { 0 },
+                dev_pct: 20,
+                pool: 80,
+                dup_pct: 0,
+                groups,
+                mix_pct: 60,
+                overlap_prev: overlap,
+            };
+            let b0 = mk(vec![g0], false, 40);
+            let b1 = mk(vec![g1], true, 200 * k.min(3));
+            push(&mut v, "shadowed", vec![LookupSpec::Pair(vec![b0, b1])], &mut rng);
         }
         // ---- several lookups, none too big alone: promotion to extension
         for variant in 0..4 {
@@ -185,6 +215,7 @@ fn scenarios(tier: Tier, seed: u64) -> Vec<CaseSpec> {
                 dup_pct: 0,
                 groups: vec![group(a, b, 3, 2, 75, &mut rng)],
                 mix_pct: 30,
+                overlap_prev: false,
             };
             lookups.push(LookupSpec::Pair(vec![s, b2]));
             let m = MarkSpec {
@@ -213,7 +244,7 @@ fn scenarios(tier: Tier, seed: u64) -> Vec<CaseSpec> {
         }
     }
     // ---- medium cases that fit without any graph surgery
-    for _ in 0..tier.pick(320, 3000) {
+    for _ in 0..tier.pick(320, 10000) {
         let mut lookups = vec![];
         for _ in 0..1 + rng.usize(2) {
             if rng.chance(1, 3) {
@@ -231,7 +262,7 @@ fn scenarios(tier: Tier, seed: u64) -> Vec<CaseSpec> {
         push(&mut v, "medium", lookups, &mut rng);
     }
     // ---- many small cases: builder grouping policy, precedence, duplicates
-    for _ in 0..tier.pick(6000, 60000) {
+    for _ in 0..tier.pick(6000, 200000) {
         let mut lookups = vec![];
         for _ in 0..1 + rng.usize(3) {
             if rng.chance(1, 3) {
@@ -267,7 +298,9 @@ pub fn run(ctx: &mut Ctx, _args: &Args) {
         "variation-index records: the VariationStoreBuilder's remapping is taken as given (only injectivity is checked)".into(),
     ];
     let t0 = std::time::Instant::now();
-    covclass::run(ctx);
+    if std::env::var("VF_C16_ONLY").is_err() {
+        covclass::run(ctx);
+    }
     let cov_s = t0.elapsed().as_secs_f64();
     let scen = scenarios(ctx.tier, ctx.seed);
     let only: Option<String> = std::env::var("VF_C16_ONLY").ok();
